@@ -124,28 +124,50 @@ fn c02_o1d_from_dht_message_max_salt() {
 //@ tier: quick
 //@ cap: 900
 //@ also: C03 C05
-//@ desc: malformed key or signature lengths are rejected without panic: key slice length in {0, 31, 33}, signature length in {0, 63, 65}
-//@ bounds: the six stated length combinations with concrete contents; unwind 130
+//@ desc: malformed key lengths are rejected without panic and without any verification: key slice length in {0, 31, 33}
+//@ bounds: three key lengths (symbolic choice), concrete contents, well-formed 64-byte signature; unwind 130
 //@ stubs: <VerifyingKey as Verifier<Signature>>::verify -> oracle (never reached)
-//@ functions: MutableItem::from_dht_message, VerifyingKey::try_from, Signature::from_slice
+//@ functions: MutableItem::from_dht_message, VerifyingKey::try_from (length check)
 #[kani::proof]
 #[kani::stub(<ed25519_dalek::VerifyingKey as ed25519_dalek::Verifier<ed25519_dalek::Signature>>::verify, oracle::verify_stub)]
 #[kani::unwind(130)]
-fn c02_o1e_from_dht_message_lengths() {
+fn c02_o1e_from_dht_message_key_lengths() {
     oracle::arm(0, true);
     let which: u8 = kani::any();
+    kani::assume(which < 3);
     let kbuf = [1u8; 33];
-    let sbuf = [2u8; 65];
-    let bad_key = which < 3;
-    let klen = if which == 0 { 0 } else if which == 1 { 31 } else if which == 2 { 33 } else { 32 };
-    let slen = if which == 3 { 0 } else if which == 4 { 63 } else if which == 5 { 65 } else { 64 };
-    kani::assume(which < 6);
-    let key: &[u8] = if bad_key { &kbuf[..klen] } else { &oracle::K1 };
-    let r = MutableItem::from_dht_message(Id::from([0u8; 20]), key, Box::new([1]), 1, &sbuf[..slen], None);
+    let sbuf = [2u8; 64];
+    let klen = if which == 0 { 0 } else if which == 1 { 31 } else { 33 };
+    let r = MutableItem::from_dht_message(Id::from([0u8; 20]), &kbuf[..klen], Box::new([1]), 1, &sbuf, None);
     assert!(r.is_err(), "C02.O1e malformed key or signature length rejected");
     assert!(oracle::asked() == 0, "C02.O1e nothing verified for malformed lengths");
     kani::cover!(which == 2);
-    kani::cover!(which == 5);
+    kani::cover!(which == 0);
+    std::mem::forget(r);
+}
+
+//@ ob: C02.O1f
+//@ tier: quick
+//@ cap: 900
+//@ also: C03 C05
+//@ desc: malformed signature lengths are rejected without panic and without any verification: signature length in {0, 63, 65}, with a well-formed key
+//@ bounds: three signature lengths (symbolic choice), concrete valid key; unwind 130 (concrete point decompression)
+//@ stubs: <VerifyingKey as Verifier<Signature>>::verify -> oracle (never reached)
+//@ functions: MutableItem::from_dht_message, Signature::from_slice
+#[kani::proof]
+#[kani::stub(<ed25519_dalek::VerifyingKey as ed25519_dalek::Verifier<ed25519_dalek::Signature>>::verify, oracle::verify_stub)]
+#[kani::unwind(130)]
+fn c02_o1f_from_dht_message_sig_lengths() {
+    oracle::arm(0, true);
+    let which: u8 = kani::any();
+    kani::assume(which < 3);
+    let sbuf = [2u8; 65];
+    let slen = if which == 0 { 0 } else if which == 1 { 63 } else { 65 };
+    let r = MutableItem::from_dht_message(Id::from([0u8; 20]), &oracle::K1, Box::new([1]), 1, &sbuf[..slen], None);
+    assert!(r.is_err(), "C02.O1e malformed key or signature length rejected");
+    assert!(oracle::asked() == 0, "C02.O1e nothing verified for malformed lengths");
+    kani::cover!(which == 2);
+    kani::cover!(which == 0);
     std::mem::forget(r);
 }
 
